@@ -194,7 +194,10 @@ func moCatalogue() []moOp {
 	}
 	for _, s := range []string{"3.0", "3.1", "3.2", "", "3", "CVSS:3.1"} {
 		s := s
-		ops = append(ops, moOp{fmt.Sprintf("v3 GetVersion(%q)", s), func() string { v, err := v3.GetVersion(s); return fmt.Sprintf("%d %q %s", int(v), v.String(), lib.Class(err)) }})
+		ops = append(ops, moOp{fmt.Sprintf("v3 GetVersion(%q)", s), func() string {
+			v, err := v3.GetVersion(s)
+			return fmt.Sprintf("%d %q %s", int(v), v.String(), lib.Class(err))
+		}})
 	}
 	return ops
 }
